@@ -162,7 +162,10 @@ u_table(uint64_t idx, void *arg)
     vh_unit_rng(&rg, "table", idx);
     vh_arena_reset();
     struct rt_desc d;
-    rt_gen_wellformed(&rg, &d, 1);
+    if (!rt_gen_curated(&rg, (unsigned)idx, &d, 1))
+        rt_gen_wellformed(&rg, &d, 1);
+    else
+        VH_COUNT("curated layout");
     rt_build(&inst, &d);
     for (uint32_t n = 0; n < 64; n++)
         bufs[n] = vh_arena(2 * (size_t)n);
